@@ -154,8 +154,8 @@ def check(run):
                 "deferred with a reserved-offering error.  DRA half: ResourceSlices / templates / claims x pod batch; non-trivial when the "
                 "allocator allocated at least one claim in the pass (only then a C17 guard has a non-trivial antecedent)")
     # 1. closed models of both halves (independent TLC jobs)
-    with cf.ThreadPoolExecutor(max_workers=2) as ex:
-        jobs = [ex.submit(model, run, tier, dev), ex.submit(model_dra, run, tier, dev)]
+    with cf.ThreadPoolExecutor(max_workers=3) as ex:
+        jobs = [ex.submit(run.build_drv), ex.submit(model, run, tier, dev), ex.submit(model_dra, run, tier, dev)]
         for j in jobs:
             j.result()
     # 2. TLC-enumerated scenarios
